@@ -915,3 +915,154 @@ Theorem C19_json_relaxed_roundtrip : forall n d t, 0 < d -> rat_reduce2 n d = (n
   json_rat_text n d = Ok t -> json_rat_de true t = Ok (n, d).
 Proof. exact json_relaxed_roundtrip. Qed.
 Print Assumptions C19_json_relaxed_roundtrip.
+
+(** ================================================================================================================
+    ROUND 4.  (1) gcd / gcd_ext / nth_root / ilog with the dispatch of each word size (Serde/WordRunsModel2.v over C12's
+    kernels: Lehmer on w-bit words, primitive gcd on the Word / DoubleWord type, Karatsuba square root, the largest power
+    of the base in a word), (2) float mul / div / sqrt per build against C03's digit-exact models, (3) arbitrary JSON token
+    streams into the human-readable deserializers (what reaches visit_str; regenerated serde glue), (4) the repaired text
+    form of floats round trips in every base. *)
+From Dashu Require Import Int.GrlLehmer Float.LongModel Float.AddModelProof Float.NormalProof.
+From Dashu Require Import Serde.WordRunsModel2 Serde.WordRuns2 Serde.JsonTokenModel Serde.JsonTokenProofs Serde.SerdeGlueProofs Serde.FloatBuilds.
+From DashuGen Require Import SerdeVisitorsGen.
+
+Theorem C19_run_gcd : forall w, 8 <= w -> forall fuel a b g, wr_gcd fuel w a b = Ok g -> g = Z.gcd a b.
+Proof. exact wr_gcd_correct. Qed.
+Print Assumptions C19_run_gcd.
+
+Theorem C19_run_gcdext : forall w, 8 <= w -> forall fuel x y g s t, 0 <= x -> 0 <= y ->
+  wr_gcdext fuel w x y = Ok (g, s, t) -> gcd_ext_cert x y g s t = true.
+Proof. exact wr_gcdext_correct. Qed.
+Print Assumptions C19_run_gcdext.
+
+Theorem C19_run_nthroot : forall w, 8 <= w -> w mod 2 = 0 -> forall fuel x n, 0 <= x ->
+  wr_nthroot fuel w x n = nth_root_asis fuel x n.
+Proof. exact wr_nthroot_eq. Qed.
+Print Assumptions C19_run_nthroot.
+
+Theorem C19_run_nthroot_cert : forall w, 8 <= w -> w mod 2 = 0 -> forall fuel x n r, 0 <= x -> 0 < n ->
+  wr_nthroot fuel w x n = Ok r -> root_cert n x r = true.
+Proof. exact wr_nthroot_correct. Qed.
+Print Assumptions C19_run_nthroot_cert.
+
+Theorem C19_run_nthroot_panics : forall w, 8 <= w -> w mod 2 = 0 -> forall fuel x n r, 0 <= x ->
+  wr_nthroot fuel w x n = Panic r -> r = RootZeroth /\ n = 0.
+Proof. exact wr_nthroot_panics. Qed.
+Print Assumptions C19_run_nthroot_panics.
+
+Theorem C19_max_exp_in_word : forall w, 8 <= w -> forall base e p, 2 <= base < 2 ^ w ->
+  max_exp_in_word_asis w base = Ok (e, p) ->
+  0 <= e /\ p = base ^ e /\ p < 2 ^ w /\ (2 ^ (w / 2) - 1 < base \/ 2 ^ w <= p * base).
+Proof. exact max_exp_in_word_asis_correct. Qed.
+Print Assumptions C19_max_exp_in_word.
+
+Theorem C19_run_ilog : forall w, 8 <= w -> forall fuel x b e, 0 <= x -> 0 <= b ->
+  wr_ilog fuel w x b = Ok e -> ilog_cert x b e = true.
+Proof. exact wr_ilog_correct. Qed.
+Print Assumptions C19_run_ilog.
+
+Theorem C19_word_runs2_independent : forall w1 w2, 8 <= w1 -> 8 <= w2 -> w1 mod 2 = 0 -> w2 mod 2 = 0 -> forall f1 f2,
+  (forall a b g1 g2, wr_gcd f1 w1 a b = Ok g1 -> wr_gcd f2 w2 a b = Ok g2 -> g1 = g2) /\
+  (forall x y g1 s1 t1 g2 s2 t2, 0 <= x -> 0 <= y -> wr_gcdext f1 w1 x y = Ok (g1, s1, t1) -> wr_gcdext f2 w2 x y = Ok (g2, s2, t2) ->
+     g1 = g2 /\ g1 = Z.gcd x y /\ s1 * x + t1 * y = g1 /\ s2 * x + t2 * y = g1) /\
+  (forall x n r1 r2, 0 <= x -> 0 < n -> wr_nthroot f1 w1 x n = Ok r1 -> wr_nthroot f2 w2 x n = Ok r2 -> r1 = r2) /\
+  (forall x n, 0 <= x -> wr_nthroot f1 w1 x n = wr_nthroot f1 w2 x n) /\
+  (forall x b e1 e2, 0 <= x -> 2 <= b -> wr_ilog f1 w1 x b = Ok e1 -> wr_ilog f2 w2 x b = Ok e2 -> e1 = e2).
+Proof. exact word_runs2_independent. Qed.
+Print Assumptions C19_word_runs2_independent.
+
+(** ---- float mul / div / sqrt per build *)
+Theorem C19_float_div_n_estimator_independent : forall B, 2 <= B -> forall du1 dl1 du2 dl2 p m s1 e1 s2 e2,
+  div_long_class B p s1 s2 = false ->
+  ctx_div_n B du1 dl1 p m s1 e1 s2 e2 = ctx_div_n B du2 dl2 p m s1 e1 s2 e2.
+Proof. exact float_div_n_estimator_independent. Qed.
+Print Assumptions C19_float_div_n_estimator_independent.
+
+Theorem C19_float_n_results_normal : forall B, 2 <= B -> forall du dl p m s1 e1 s2 e2,
+  approx_normal B (ctx_mul_n B p m s1 e1 s2 e2) /\ result_normal B (ctx_div_n B du dl p m s1 e1 s2 e2) /\
+  result_normal B (ctx_sqrt_n B p m s1 e1).
+Proof. exact float_n_results_normal. Qed.
+Print Assumptions C19_float_n_results_normal.
+
+Theorem C19_float_mul_n_one_rounding : forall B, 2 <= B -> forall p m s1 e1 s2 e2, 1 <= p -> mul_long_class B p s1 s2 = false ->
+  ctx_mul_n B p m s1 e1 s2 e2 = norm_approx B (ctx_mul B p m s1 e1 s2 e2) /\
+  rounded_sum B p m (s1 * s2) (e1 + e2) (ctx_mul B p m s1 e1 s2 e2).
+Proof. exact float_mul_n_one_rounding. Qed.
+Print Assumptions C19_float_mul_n_one_rounding.
+
+(** ---- arbitrary JSON token streams *)
+Theorem C19_json_lexer_total : forall inp, json_str_token inp <> OutOfFuel.
+Proof. exact json_str_token_total. Qed.
+Print Assumptions C19_json_lexer_total.
+
+Theorem C19_json_plain_string : forall w1 body w2, all_ws w1 -> all_ws w2 -> Forall plain_char body ->
+  json_str_token (w1 ++ json_quote body ++ w2)%list = Ok body.
+Proof. exact json_str_token_plain. Qed.
+Print Assumptions C19_json_plain_string.
+
+Theorem C19_json_non_string_rejected : forall inp,
+  (skip_ws inp = [] \/ exists c t, skip_ws inp = c :: t /\ c <> 34) ->
+  json_str_token inp = Err E_Json /\
+  (forall sg, json_tok_int sg inp = Err E_Json) /\ (forall rl, json_tok_rat rl inp = Err E_Json) /\ (forall B, json_tok_float B inp = Err E_Json).
+Proof. exact json_non_string_rejected. Qed.
+Print Assumptions C19_json_non_string_rejected.
+
+Theorem C19_json_tok_int_roundtrip : forall v t w1 w2, all_ws w1 -> all_ws w2 -> json_int_text v = Ok t ->
+  json_tok_int true (w1 ++ json_quote t ++ w2)%list = Ok v /\ (0 <= v -> json_tok_int false (w1 ++ json_quote t ++ w2)%list = Ok v).
+Proof. exact json_tok_int_roundtrip. Qed.
+Print Assumptions C19_json_tok_int_roundtrip.
+
+Theorem C19_json_tok_rbig_roundtrip : forall n d t w1 w2, all_ws w1 -> all_ws w2 -> rat_canon n d -> json_rat_text n d = Ok t ->
+  json_tok_rat false (w1 ++ json_quote t ++ w2)%list = Ok (n, d).
+Proof. exact json_tok_rbig_roundtrip. Qed.
+Print Assumptions C19_json_tok_rbig_roundtrip.
+
+Theorem C19_json_tok_rbig_canonical : forall inp n d, json_tok_rat false inp = Ok (n, d) -> rat_canon n d.
+Proof. exact json_tok_rbig_canonical. Qed.
+Print Assumptions C19_json_tok_rbig_canonical.
+
+(** ---- the repaired float text form (finding fbig_json_inf_collision, fixed): every finite normal-form value of every
+    base 2..36 round trips, the infinities as before *)
+Theorem C19_json_float_ser_roundtrip : forall B s e, 2 <= B <= 36 ->
+  s mod B <> 0 \/ (s = 0 /\ e = 0) -> in_isize e = true -> json_float_de_gen B (json_float_ser B s e) = Ok (s, e).
+Proof. exact json_float_ser_roundtrip. Qed.
+Print Assumptions C19_json_float_ser_roundtrip.
+
+Theorem C19_json_float_ser_inf : forall B e, e <> 0 -> json_float_de_gen B (json_float_ser B 0 e) = Ok (0, Z.sgn e).
+Proof. exact json_float_ser_inf. Qed.
+Print Assumptions C19_json_float_ser_inf.
+
+(** ---- the regenerated serde glue is what the token model assumes *)
+Theorem C19_serde_glue_is_modelled : hints_ok = true /\ visit_str_ok = true /\
+  gen_inf_tokens = [(txt_inf, 1); (txt_ninf, -1)] /\ gen_inf_escape_min_base <= 24 /\ gen_inf_escape_suffix = [64; 48].
+Proof. exact serde_glue_is_modelled. Qed.
+Print Assumptions C19_serde_glue_is_modelled.
+
+(** ---- finding fbig_to_float_wide_significand is fixed (344196e): the hand-over to into_f32/f64_internal fits *)
+Theorem C19_to_float_div_route_fits : forall p m N D e1 e2, 1 <= p -> 0 < D -> N <> 0 ->
+  let a := Conv.ConvModel.div_round_once 2 p m N e1 D e2 in
+  dlen 2 (fst (Float.Model.normalize 2 (Float.Model.approx_sig a) (Float.Model.approx_exp a))) <= p.
+Proof. exact to_float_div_route_fits. Qed.
+Print Assumptions C19_to_float_div_route_fits.
+
+(** ---- release vs debug builds: exponent arithmetic on isize (open finding float_exponent_range_unchecked, Context::mul) *)
+From Dashu Require Import Serde.ExpRangeModel Serde.ExpRangeProofs.
+From DashuGen Require Import RoundTables.
+
+Theorem C19_ctx_mul_builds_agree : forall B p m s1 e1 s2 e2, mul_exp_range_class e1 e2 = false ->
+  ctx_mul_build true B p m s1 e1 s2 e2 = ctx_mul_build false B p m s1 e1 s2 e2 /\
+  ctx_mul_build true B p m s1 e1 s2 e2 = Ok (ctx_mul_n B p m s1 e1 s2 e2).
+Proof. exact ctx_mul_builds_agree. Qed.
+Print Assumptions C19_ctx_mul_builds_agree.
+
+Theorem C19_mul_exp_range_class_small : forall e1 e2, - 2 ^ 62 <= e1 < 2 ^ 62 -> - 2 ^ 62 <= e2 < 2 ^ 62 -> mul_exp_range_class e1 e2 = false.
+Proof. exact mul_exp_range_class_small. Qed.
+Print Assumptions C19_mul_exp_range_class_small.
+
+Theorem C19_mul_exp_range_refuted :
+  mul_exp_range_class (2 ^ 63 - 1) (2 ^ 63 - 1) = true /\
+  ctx_mul_build true 10 1 MHalfEven 3 (2 ^ 63 - 1) 5 (2 ^ 63 - 1) = Panic Undocumented /\
+  ctx_mul_build false 10 1 MHalfEven 3 (2 ^ 63 - 1) 5 (2 ^ 63 - 1) = Ok (AInexact 2 (-1) AddOne) /\
+  ctx_mul_n 10 1 MHalfEven 3 (2 ^ 63 - 1) 5 (2 ^ 63 - 1) = AInexact 2 (2 ^ 64 - 1) AddOne.
+Proof. exact mul_exp_range_refuted. Qed.
+Print Assumptions C19_mul_exp_range_refuted.
